@@ -11,6 +11,9 @@ from ..nslref import joint
 from ..nslref.interp import deep
 
 
+INSTANCE_BUDGET_S = 90.0     # wall-clock budget of one pair's exploration; beyond it the instance is reported as cut (incomplete)
+
+
 class Failure:
     def __init__(self, exc):
         self.exc = exc
@@ -62,12 +65,17 @@ def check_pair(prog, fname, linked_ref, linked_cand, *, harness, inst, extra_pre
         return a, b
 
     eng = Engine(max_decisions=max_decisions, max_paths=max_paths, path_timeout=path_timeout)
+    import time as _time
+    eng.deadline = _time.time() + INSTANCE_BUDGET_S
     paths = eng.explore(fn, pre)
     res["paths"] = len(paths)
     if not paths:
         res["errors"].append("no feasible path (vacuous instance)")
     grid = joint.grid(zvars)
     for p in paths:
+        if _time.time() > eng.deadline + 60:
+            res["undecided"] += 1          # the query phase ran out of its budget too: not decided
+            continue
         if p.kind == "cut":
             res["cut"] += 1
             continue
